@@ -49,6 +49,7 @@ class Spec:
             st.doc = Document(os.path.join(FIXTURES, arg))
         st.ref = [[s.name, [t.name for t in s.tables]] for s in st.doc.sheets]
         st.loaded = kind != "fresh"
+        st.saved = 0
         return st
 
     def enabled(self, st, depth_left):
@@ -68,6 +69,8 @@ class Spec:
                 for ti in sorted({0, len(ref[si][1]) - 1}):
                     for nm in self.rename_pool:
                         evs.append(["rename_table", si, ti, nm])
+        if st.saved < 1:
+            evs.append(["save"])  # the same open document keeps being edited after a save
         return evs
 
     def apply(self, st, ev):
@@ -117,6 +120,11 @@ class Spec:
                     if nm is not None and new.name != nm:
                         fails.append(({"mechanism": "add_table", "class": "wrong-name"}, f"add_table({nm!r}) created {new.name!r}"))
                     ref[si][1].append(new.name)
+            elif kind == "save":
+                p = _tmp()
+                doc.save(p)
+                os.unlink(p)
+                st.saved += 1
             elif kind == "rename_sheet":
                 _, si, nm = ev
                 doc.sheets[si].name = nm
@@ -197,7 +205,7 @@ class Spec:
         skip = ("_items", "_model", "_data", "_cache")
         colls = [explore.generic_fingerprint(st.doc._sheets, skip)] + [explore.generic_fingerprint(s._tables, skip) for s in st.doc.sheets]
         items = [explore.generic_fingerprint(s, ("_tables", "_model")) for s in st.doc.sheets]
-        return repr(st.ref) + repr(st.loaded) + repr(fp) + repr(colls) + repr(items)
+        return repr(st.ref) + repr((st.loaded, st.saved)) + repr(fp) + repr(colls) + repr(items)
 
 
 SPECS = {
